@@ -682,7 +682,8 @@ fn c09(quick: bool) -> Vec<Harness> {
         Connect, Bind, LocalAddr, SockOpt, SetSockOpt, Statx, CreateDir, Rename, RemoveFile, Fsync, Truncate, Shutdown,
         Pipe, WaitId, ReadLimited, OpenDirect, SocketDirect, PipeDirect, ToDirect, Listen, PeerAddr, SyncData, FAdvise,
         Allocate, MemAdvise, SpliceTo, SpliceFrom, SendToVectored, OpenTemp, Pollable, ReceiveSignal, ReceiveSignals,
-        RecvFromPool, OpenExtract, CreateDirExtract, RenameExtract, RemoveExtract,
+        RecvFromPool, OpenExtract, CreateDirExtract, RenameExtract, RemoveExtract, ReadVecFrom, WriteVecAt, ReadVectoredFrom,
+        WriteVectoredAt, RecvPeek, RecvPoolWaitAll, RecvFromPeek, SendMore, SendZcMore, SendToMore, MultishotRecvPeek,
     ];
     for k in kinds {
         let mut cfg = Cfg::base("C09");
@@ -708,6 +709,27 @@ fn c09(quick: bool) -> Vec<Harness> {
         if k.class() == crate::ops::Class::TwoStep {
             cfg.zc_error_notif = false;
             v.push(ops_harness(&format!("{k:?}-error-without-notif"), "C09", cfg, bounds(d(8, 16), d(1, 4), 4)));
+        }
+    }
+    {
+        // AsyncFd::close of a descriptor an operation handed out, interrupted and restarted.
+        for k in [OpenFile, OpenDirect] {
+            let mut cfg = Cfg::base("C09");
+            cfg.sq = 2;
+            cfg.preset = vec![k];
+            cfg.kinds = vec![];
+            cfg.max_ops = 1;
+            cfg.faults = true;
+            cfg.errors = false;
+            cfg.shorts = false;
+            cfg.allow_fresh = false;
+            cfg.held_letters = true;
+            cfg.hold_close = true;
+            cfg.costs.outcome = 0;
+            cfg.costs.spurious_poll = 1;
+            cfg.direct_table = Some(4);
+            cfg.report = vec!["C09"];
+            v.push(ops_harness(&format!("{k:?}+close"), "C09", cfg, bounds(d(13, 15), d(1, 2), 4)));
         }
     }
     if !quick {
@@ -773,6 +795,15 @@ fn c06(quick: bool) -> Vec<Harness> {
             v.push(ops_harness(&format!("{k:?}-error-without-notif"), "C06", cfg, bounds(d(7, 9), d(2, 3), 4)));
         }
     }
+    // The Ring is dropped right after the futures, with whatever is still queued or in flight.
+    for (preset, sq) in [(vec![ReadVec, WriteVec], 1u32), (vec![ReadVec, WriteVec], 2), (vec![SendZc, ReadVec], 2), (vec![MultishotRead, ReadVec], 2), (vec![OpenFile, RecvFrom], 1)] {
+        let mut cfg = drop_cfg("C06", preset.clone());
+        cfg.sq = sq;
+        cfg.final_drop_ring_first = true;
+        cfg.report = vec!["C06"];
+        let name = format!("{}-sq{sq}-ring-dropped-first", preset.iter().map(|k| format!("{k:?}")).collect::<Vec<_>>().join("+"));
+        v.push(ops_harness(&name, "C06", cfg, bounds(d(7, 9), d(2, 3), 4)));
+    }
     for (a, b) in [(ReadVec, SendZc), (ReadVec, WriteVec), (MultishotRead, ReadVec)] {
         for sq in [1u32, 2] {
             let mut cfg = drop_cfg("C06", vec![a, b]);
@@ -806,6 +837,19 @@ fn c01(quick: bool) -> Vec<Harness> {
             cfg.zc_error_notif = false;
             v.push(ops_harness(&format!("{k:?}-error-without-notif"), "C01", cfg, bounds(d(6, 8), d(2, 3), 4)));
         }
+    }
+    {
+        // A pool buffer that holds data handed to the kernel again (five operation kinds).
+        let mut cfg = drop_cfg("C01", vec![ReadPool]);
+        cfg.sq = 4;
+        cfg.pool = (2, 8);
+        cfg.reread_held = true;
+        cfg.shorts = true;
+        cfg.costs.outcome = 1;
+        cfg.allow_fresh = false;
+        cfg.allow_cancel_lose = false;
+        cfg.report = vec!["C01"];
+        v.push(ops_harness("pool-buffer-reused", "C01", cfg, bounds(d(12, 13), d(2, 3), 4)));
     }
     for (a, b) in [(ReadVec, SendZc), (RecvFrom, WriteVectored2), (MultishotRead, Accept), (ReadPool, Statx)] {
         let mut cfg = drop_cfg("C01", vec![a, b]);
